@@ -23,7 +23,17 @@ EXTENDS Receiver
 
 \* a mistake: class, name, location path, region [pos, eq]: the error's span must lie inside the
 \* item at `pos` (be equal to its range if eq); pos = <<>>: no enclosing item, the error is unspanned
-M(cls, n, loc, pos, eq) == [cls |-> cls, n |-> n, loc |-> loc, pos |-> pos, eq |-> eq]
+\* alts: for an unknown name, the suggestions C17 permits (see BestOf); <<>> for every other class
+M(cls, n, loc, pos, eq) == [cls |-> cls, n |-> n, loc |-> loc, pos |-> pos, eq |-> eq, alts |-> <<>>]
+
+\* C17: the suggestion must be a name that would have been accepted at that very position and be
+\* the most similar one among all such names, provided it clears the threshold; no candidate -> none
+BestOf(u, eligible) ==
+  LET E == {eligible[i] : i \in 1..Len(eligible)}
+      A == {c \in E : Sim(u, c).above}
+      B == {c \in A : \A d \in A : Sim(u, d).rank <= Sim(u, c).rank}
+  IN IF ~SUGGEST \/ A = {} THEN <<"">> ELSE SelectSeq(eligible, LAMBDA c : c \in B)
+MU(n, loc, pos, eligible) == [M("unknown", n, loc, pos, FALSE) EXCEPT !.alts = BestOf(n, eligible)]
 
 ScalarOk(f, ty, it) ==
   LET r == CASE ty.k \in {"val", "opt", "vec"} -> ConvVal(it, <<>>)
@@ -31,11 +41,16 @@ ScalarOk(f, ty, it) ==
              [] ty.k = "bool" -> ConvBool(it, <<>>)
   IN r.ok /\ ~(f.transform = "and_then" /\ it.val = "s:bad")
 
-RECURSIVE MistakesStruct(_, _, _, _, _), ConvMistakes(_, _, _, _, _), EnumMistakes(_, _, _, _), MapMistakes(_, _, _)
+LiveVariantNames(E) ==
+  LET idx == SelectSeq([i \in 1..Len(E.variants) |-> i], LAMBDA i : ~E.variants[i].skip)
+  IN [k \in 1..Len(idx) |-> VariantName(E, E.variants[idx[k]])]
+
+RECURSIVE MistakesStruct(_, _, _, _, _, _), ConvMistakes(_, _, _, _, _), EnumMistakes(_, _, _, _), MapMistakes(_, _, _)
 
 \* ips: sequence of [it, p] (item with its position); P: location path; encl: position of the
 \* enclosing item (<<>> at the root of an attribute set)
-MistakesStruct(S, rule, ips, P, encl) ==
+\* outer: names of the enclosing receivers that handed these items down through flatten members
+MistakesStruct(S, rule, ips, P, encl, outer) ==
   LET n == Len(ips)
       arm(k) == IF ips[k].it.k = "lit" THEN 0 ELSE ArmOf(S, rule, ips[k].it.name)
       first(k) == \A j \in 1..(k-1) : ips[j].it.k = "lit" \/ arm(j) # arm(k)
@@ -48,10 +63,10 @@ MistakesStruct(S, rule, ips, P, encl) ==
           ELSE IF first(k) THEN ConvMistakes(f, f.ty, it, p, Append(P, nm))
           ELSE <<M("dup", nm, P, p, FALSE)>>            \* a repeat is one mistake whatever its value
         ELSE IF FlattenIdx(S) # 0 \/ S.allow_unknown THEN <<>>
-        ELSE <<M("unknown", it.name, P, p, FALSE)>>
+        ELSE <<MU(it.name, P, p, AddrNames(S, rule) \o outer)>>
       unclaimed == SelectSeq(ips, LAMBDA x : x.it.k = "meta" /\ ArmOf(S, rule, x.it.name) = 0)
       flat == IF FlattenIdx(S) = 0 THEN <<>>
-              ELSE LET T == D(S.fields[FlattenIdx(S)].ty.id) IN MistakesStruct(T, T.rename_all, unclaimed, P, encl)
+              ELSE LET T == D(S.fields[FlattenIdx(S)].ty.id) IN MistakesStruct(T, T.rename_all, unclaimed, P, encl, AddrNames(S, rule) \o outer)
       mentioned(i) == \E k \in 1..n : arm(k) = i
       missing(i) ==
         LET f == S.fields[i] IN
@@ -69,7 +84,7 @@ ConvMistakes(f, ty, it, p, Pf) ==
          IF ScalarOk(f, ty, it) THEN <<>> ELSE <<M("other", "", Pf, p, FALSE)>>
     [] ty.k = "recv" ->
          LET T == D(ty.id) IN
-         (CASE it.form = "list" -> MistakesStruct(T, T.rename_all, WithPos(it.items, p), Pf, p)
+         (CASE it.form = "list" -> MistakesStruct(T, T.rename_all, WithPos(it.items, p), Pf, p, <<>>)
             [] it.form = "word" -> IF T.from_word THEN <<>> ELSE <<M("other", "", Pf, p, FALSE)>>
             [] it.form = "nv"   -> <<M("other", "", Pf, p, FALSE)>>)
     [] ty.k = "enum" -> EnumMistakes(D(ty.id), it, p, Pf)
@@ -93,14 +108,15 @@ EnumMistakes(E, it, p, Pf) ==
          ELSE IF Len(it.items) > 1 THEN <<M("toomany", "", Pf, p, FALSE)>>
          ELSE LET x == it.items[1] q == Append(p, 1) IN
            IF x.k = "lit" THEN <<M("other", "", Pf, q, FALSE)>>
-           ELSE IF live(x.name) = {} THEN <<M("unknown", x.name, Pf, q, FALSE)>>
+           ELSE IF live(x.name) = {} THEN
+             <<MU(x.name, Pf, q, LiveVariantNames(E))>>
            ELSE LET v == E.variants[pick(x.name)] nm == VariantName(E, v) IN
              CASE v.style = "unit" -> IF x.form = "word" THEN <<>> ELSE <<M("other", "", Pf, q, FALSE)>>
                [] v.style = "newtype" -> ConvMistakes([transform |-> "none"], v.ty, x, q, Append(Pf, nm))
                [] v.style = "struct" ->
                     IF x.form = "junk" THEN <<M("other", "", Pf, q, FALSE)>>
                     ELSE IF x.form = "list"
-                    THEN MistakesStruct(D(v.sid), EnumRule(E), WithPos(x.items, q), Append(Pf, nm), q)
+                    THEN MistakesStruct(D(v.sid), EnumRule(E), WithPos(x.items, q), Append(Pf, nm), q, <<>>)
                     ELSE <<M("other", "", Pf, q, FALSE)>>
 
 \* C14's reading of a string-keyed map of Val, as mistakes
@@ -184,7 +200,7 @@ AttrMistakes(S, as) ==
      IF S.trait # "FromMeta" /\ HandledBy(S, as[a].path) /\ as[a].form \in {"nv", "junk"}
      THEN <<M("other", "", <<>>, <<a>>, FALSE)>> ELSE <<>>])
 
-MistakesOf(S, as) == AttrMistakes(S, as) \o MistakesStruct(S, S.rename_all, AllItems(S, as), <<>>, <<>>)
+MistakesOf(S, as) == AttrMistakes(S, as) \o MistakesStruct(S, S.rename_all, AllItems(S, as), <<>>, <<>>, <<>>)
 
 ExpectedOf(S, as) ==
   ExpectedStruct(S, S.rename_all, ConcatAll([a \in 1..Len(as) |-> IF IsList(S, as[a]) THEN as[a].items ELSE <<>>]))
@@ -225,6 +241,11 @@ IsPrefixOf(a, b) == Len(a) <= Len(b) /\ SubSeq(b, 1, Len(a)) = a
 \* C03 at design level: a leaf's span lies in the region of SOME mistake with its key (positions
 \* below the region's position are inside it), equal when the region says so; unspanned only
 \* when the mistake has no enclosing item
+\* C17: a suggestion only on unknown-name leaves, and then one the declarative side permits
+AltFits(e, ms) ==
+  IF e.k # "unknown" THEN e.alt = ""
+  ELSE \E i \in 1..Len(ms) : MistakeKey(ms[i]) = LeafKey(e) /\ \E j \in 1..Len(ms[i].alts) : ms[i].alts[j] = e.alt
+
 SpanFits(e, ms) ==
   \E i \in 1..Len(ms) :
     /\ MistakeKey(ms[i]) = LeafKey(e)
